@@ -318,9 +318,9 @@ def rule_factor_trim(P):
             loops = [a for a in ancestors(c) if isinstance(a, ast.For)]
             ok = bool(loops) and norm(loops[-1].iter) == act and norm(c.args[0]) == norm(loops[-1].target)
             if api == "add_arc":
-                ok = ok and any(ft.pol and norm(ft.test) == f"{norm(c.args[2])} in {act}" for ft in W.guard_facts(c))
+                ok = ok and f"{norm(c.args[2])} in {act}" in W.cfacts(f.node, c)
             else:
-                ok = ok and norm(c.args[1]) == f"self.{'start' if api == 'add_I' else 'stop'}[{norm(c.args[0])}]"
+                ok = ok and W.cnorm(f.node, c.args[1], c) == f"self.{'start' if api == 'add_I' else 'stop'}[{norm(c.args[0])}]"
         r.add(f, cs[0] if cs else f.node, ok, "" if ok else f"{api} must be applied to (and only to) the active states", construct=f"_trim: {api}")
     r.min_instances = 4
     return r
